@@ -52,11 +52,18 @@ BinShapes == {<<<<3>>, <<3>>>>, <<<<2, 3>>, <<3>>>>, <<<<>>, <<3>>>>, <<<<3>>, <
 \* special exponents exercising the x**1 / x**2 fast paths of the operator
 PowExponents == {"generic", "one", "two"}
 
-BinCells == UNION {{[group |-> "binary", f |-> f, operands |-> o, shapes |-> sh,
-                     spellings |-> {sp \in BinSpellings(f) : SpellingOK(sp, o)},
+\* commutative functions: the commuted call f(y, x) is one more spelling of f(x, y) (values, dtype, shape)
+Commutative == {"add", "multiply", "maximum", "minimum", "logaddexp", "logaddexp2"}
+\* dtype of the tensor operands: float64, and - where a Python scalar takes part - also float32 (a scalar must stay
+\* "weak" whichever side it stands on, whichever spelling is used)
+BinDtypes(o) == {"f8"} \cup (IF "s" \in {o[1], o[2]} THEN {"f4"} ELSE {})
+BinCells == UNION {{[group |-> "binary", f |-> f, operands |-> o, shapes |-> sh, dt |-> d,
+                     spellings |-> {sp \in BinSpellings(f) : SpellingOK(sp, o)}
+                                   \cup (IF f \in Commutative /\ o[1] # o[2] THEN {"commuted"} ELSE {}),
                      exponent |-> e, domain |-> Domain(f), kind |-> "tensor"] :
-                      o \in BinOperands, sh \in BinShapes,
+                      o \in BinOperands, sh \in BinShapes, d \in {"f8", "f4"},
                       e \in (IF f = "power" THEN PowExponents ELSE {"generic"})} : f \in BinaryU}
+BinCellsOK == {c \in BinCells : c.dt \in BinDtypes(c.operands)}
 UnCells == {[group |-> "unary", f |-> f, operand |-> o, shape |-> sh, spellings |-> UnSpellings(f),
              domain |-> Domain(f), kind |-> "tensor"] :
                f \in UnaryU, o \in {"v", "c"}, sh \in {<<3>>, <<2, 2>>, <<>>, <<0>>}}
@@ -134,7 +141,7 @@ NonDiffCells ==
   \cup {[group |-> "constufunc", f |-> "divmod", operands |-> o, spellings |-> {"np"}, kind |-> ConstKind(o)] :
      o \in {<<"v", "c">>, <<"c", "v">>, <<"c", "c">>, <<"a", "v">>, <<"c", "a">>, <<"s", "v">>}}
 
-Cells == BinCells \cup UnCells \cup MatCells \cup RedCells \cup ShapeCellsOK \cup NonDiffCells
+Cells == BinCellsOK \cup UnCells \cup MatCells \cup RedCells \cup ShapeCellsOK \cup NonDiffCells
 
 \* ---------------------------------------------------------------- consistency of the table itself
 \* every differentiable cell has the MyGrad function as the reference spelling and at least one other spelling
